@@ -18,7 +18,7 @@ RULE = ('one evaluation = one seeded single-client history (20-300 API calls inc
         'calls; distinct = distinct SHA-256 of (configuration, program)')
 ASSUMPTIONS = ['clock frozen within one operation, advanced between operations (ties expire_time == now are reachable)',
                'size_limit is huge in this check: size eviction is C09']
-PROBES = ('cull_expired', 'page_boundary_crossed', 'reopen')
+PROBES = ('cull_expired', 'page_boundary_crossed', 'reopen', 'identity_pairs')
 TECHNIQUE = 'deterministic simulation (virtual clock, seeded file names) driving model-based differential checking against an executable reference dictionary'
 LEVEL_TEXT = ('seeded exploration of call histories under a controlled clock; each history is checked call by call against an '
               'executable reference model, with lazy culling validated as legality of the observed removal set. The clock and '
@@ -27,8 +27,16 @@ LEVEL_TEXT = ('seeded exploration of call histories under a controlled clock; ea
 LEVEL_NOTE = 'trusted: the reference model (validated on 3000 random histories against the pinned tree in the design phase), SQLite, tmpfs'
 
 
+IDENT_MEMBERS = ['lang-en', {'b': '6b65792d31'}, {'t': [1, 'x']}, 'ab']
+
+
 def gen_case(seed, tier):
     rng = random.Random('%s/c03' % seed)
+    if seed % 97 == 13:
+        # a composite key written with one object in two places, looked up with an equal key built from two equal objects
+        # (and the other way round): to a dictionary they are one key
+        return {'seed': seed, 'cfg': {'kind': 'identity', 'member': rng.choice(IDENT_MEMBERS), 'n': rng.choice((2, 2, 3)),
+                                      'first': rng.choice(('same', 'dist'))}, 'prog': []}
     settings = seqcache.gen_settings(rng, 'c03')
     n_ops = rng.choice((20, 40, 80, 150)) if tier == 'quick' else rng.choice((20, 60, 150, 300))
     profile = rng.choice(('mixed', 'mixed', 'expiry', 'nottl'))
@@ -38,7 +46,42 @@ def gen_case(seed, tier):
     return {'seed': seed, 'cfg': {'settings': settings, 'profile': profile}, 'prog': prog}
 
 
+def run_identity(case):
+    from .. import vals
+    from ..world import World
+    cfg = case['cfg']
+    violations = []
+    world = World(case['seed'], clock={'mode': 'frozen'}, yield_clock=False)
+    try:
+        cache = world.dc.Cache(world.path('c'))
+        first, second = cfg['first'], ('dist' if cfg['first'] == 'same' else 'same')
+        k1 = vals.dec({first: [cfg['member'], cfg['n']]})
+        k2 = vals.dec({second: [cfg['member'], cfg['n']]})
+        ref = {}
+        cache[k1] = 'v1'
+        ref[k1] = 'v1'
+        got = (k2 in cache, cache.get(k2), len(cache))
+        want = (k2 in ref, ref.get(k2), len(ref))
+        if got == want:
+            cache[k2] = 'v2'
+            ref[k2] = 'v2'
+            got = (cache.get(k1), len(cache))
+            want = (ref.get(k1), len(ref))
+        if got != want:
+            violations.append({'rule': 'C03/equal-keys-distinct-entries', 'sig': 'members-one-object-vs-equal-objects',
+                               'detail': 'key %r written with %s members, looked up with %s members: cache %r, dictionary %r'
+                                         % (k1, 'one object as all' if first == 'same' else 'equal but distinct objects as', 'distinct' if first == 'same' else 'one object as all', got, want)})
+        cache.close()
+    finally:
+        world.close()
+    digest = hashlib.sha256(json.dumps(case['cfg'], sort_keys=True).encode()).hexdigest()
+    return {'violations': violations, 'digest': digest, 'steps': 4, 'switches': 0, 'fired': {}, 'probes': {'identity_pairs': 1},
+            'virtual_s': 0.0, 'nontrivial': True, 'outcome': {'ops': 4}}
+
+
 def run_case(case):
+    if case['cfg'].get('kind') == 'identity':
+        return run_identity(case)
     violations, stats = seqcache.run_prog(case, PROPERTY)
     digest = hashlib.sha256(json.dumps([case['cfg'], case['prog']], sort_keys=True).encode()).hexdigest()
     return {'violations': violations, 'digest': digest, 'steps': stats['ops'], 'switches': 0, 'fired': {},
